@@ -16,13 +16,15 @@ LEX_FUNCS_C14 = [
 ]
 
 
-def H(name, crate, props, tier, bound, funcs, budget_s=900, expect="pass", stubs=None, fail_desc=None, unwind=None, mem_gb=None):
+def H(name, crate, props, tier, bound, funcs, budget_s=900, expect="pass", stubs=None, fail_desc=None, unwind=None, mem_gb=None, slots=None):
     d = {"name": name, "crate": crate, "props": props, "tier": tier, "bound": bound, "funcs": funcs,
          "budget_s": budget_s, "expect": expect, "stubs": stubs or []}
     if fail_desc:
         d["fail_desc"] = fail_desc
     if mem_gb:
         d["mem_gb"] = mem_gb
+    if slots:
+        d["slots"] = slots  # [(nbytes, [candidate ints])] per kani::any() call, in call order: native witness search
     return d
 
 
@@ -136,12 +138,33 @@ RANGED_STUBS_I64 = ["std::fmt::format", "crate::error::Error::with_cmd", "crate:
 RANGED_STUBS_U64 = RANGED_STUBS_I64[:3] + ["crate::builder::value_parser::RangedU64ValueParser::format_bounds"]
 RANGED_F = ["clap_builder::builder::RangedI64ValueParser::<T>::{from((Bound,Bound)),parse_ref}", "clap_builder::builder::RangedU64ValueParser::<T>::{from,parse_ref}",
             "core::str::parse::<i64|u64>", "TryFrom<i64|u64> for T", "RangeBounds::contains"]
+I64MIN, I64MAX = -(1 << 63), (1 << 63) - 1
+
+
+def ranged_slots(r):
+    n = r["val"] if r["val"] is not None else 0
+    bits = int(r["ty"][1:])
+    tmin, tmax = (-(1 << (bits - 1)), (1 << (bits - 1)) - 1) if r["ty"][0] == "i" else (0, (1 << bits) - 1)
+    if r["parser"] == "i64":
+        vals = sorted({v for v in (n - 1, n, n + 1, tmin - 1, tmin, tmax, tmax + 1, 0, -1, 1, I64MIN, I64MAX) if I64MIN <= v <= I64MAX})
+    else:
+        vals = sorted({v for v in (n - 1, n, n + 1, tmax, 0, 1, (1 << 63) - 1, 1 << 63, (1 << 64) - 1) if 0 <= v < (1 << 64)})
+    return [(1, [0, 1, 2]), (8, vals), (1, [0, 1, 2]), (8, vals)]
+
+
 for r in c04_table.rows():
+    HARNESS_SLOTS = ranged_slots(r)
     bld("c04", r["name"], ["C04"], r["tier"],
         f"literal {r['lit']!r} x EVERY range: lo, hi any 64-bit value, start/end bound each Included|Excluded|Unbounded; target type {r['ty']} ({'RangedI64ValueParser' if r['parser']=='i64' else 'RangedU64ValueParser'})",
         RANGED_F, stubs=RANGED_STUBS_I64 if r["parser"] == "i64" else RANGED_STUBS_U64,
-        budget_s=1200 if len(r["lit"]) <= 6 else 5400, mem_gb=12)
+        budget_s=1200 if len(r["lit"]) <= 6 else 5400, mem_gb=12, slots=HARNESS_SLOTS)
 bld("c04", "twin_c04_ranged_must_fail", ["C04"], "quick", "vacuity twin", RANGED_F, stubs=RANGED_STUBS_I64, expect="fail", budget_s=1200)
+
+def mask_slots(word):
+    """one kani::any::<bool>() per ASCII letter of the word (case mask), in order"""
+    w = "" if word == "empty" else word
+    return [(1, [0, 1]) for ch in w if ch.isalpha()]
+
 
 BOOL_F = ["clap_builder::util::str_to_bool", "clap_builder::builder::{BoolishValueParser,FalseyValueParser,BoolValueParser}::parse_ref"]
 BOOL_STUBS = ["std::fmt::format", "crate::error::Error::with_cmd", "crate::error::Error::value_validation"]
@@ -149,16 +172,16 @@ for lit, tier in [("y", "thorough"), ("yes", "thorough"), ("t", "thorough"), ("t
                   ("n", "thorough"), ("no", "thorough"), ("f", "thorough"), ("false", "thorough"), ("off", "quick"), ("0", "thorough"),
                   ("empty", "quick"), ("2", "thorough"), ("tru", "quick"), ("yess", "thorough"), ("onn", "thorough"), ("of", "thorough")]:
     bld("c04", f"str_to_bool_{lit}", ["C04"], tier, f"word {lit!r} with a symbolic ASCII case per letter -> util::str_to_bool", BOOL_F,
-        stubs=["str::to_lowercase"], budget_s=1500)
+        stubs=["str::to_lowercase"], budget_s=1500, slots=mask_slots(lit))
 for lit, tier in [("yes", "thorough"), ("off", "thorough"), ("tru", "quick"), ("empty", "thorough"), ("0", "thorough")]:
     bld("c04", f"boolish_{lit}", ["C04"], tier, f"word {lit!r} with a symbolic ASCII case per letter -> BoolishValueParser::parse_ref", BOOL_F,
-        stubs=BOOL_STUBS + ["str::to_lowercase", "crate::output::usage::Usage::create_usage_with_title"], budget_s=1500)
+        stubs=BOOL_STUBS + ["str::to_lowercase", "crate::output::usage::Usage::create_usage_with_title"], budget_s=1500, slots=mask_slots(lit))
     bld("c04", f"falsey_{lit}", ["C04"], "thorough", f"word {lit!r} with a symbolic ASCII case per letter -> FalseyValueParser::parse_ref", BOOL_F,
-        stubs=["str::to_lowercase", "crate::output::usage::Usage::create_usage_with_title"], budget_s=1500)
+        stubs=["str::to_lowercase", "crate::output::usage::Usage::create_usage_with_title"], budget_s=1500, slots=mask_slots(lit))
 for lit, tier in [("true", "quick"), ("false", "thorough"), ("t", "thorough"), ("yes", "thorough"), ("1", "thorough"), ("truee", "thorough")]:
     bld("c04", f"bool_exact_{lit}", ["C04"], tier, f"word {lit!r} with a symbolic ASCII case per letter (BoolValueParser is case-sensitive)", BOOL_F,
-        stubs=["std::fmt::format", "crate::error::Error::with_cmd", "crate::error::Error::invalid_value"], budget_s=1500)
+        stubs=["std::fmt::format", "crate::error::Error::with_cmd", "crate::error::Error::invalid_value"], budget_s=1500, slots=mask_slots(lit))
 PV_F = ["clap_builder::builder::PossibleValue::{new,alias,matches,get_name_and_aliases}", "clap_builder::util::eq_ignore_case (unicode off)"]
-for lit, tier in [("fast", "quick"), ("quick", "thorough"), ("fas", "quick"), ("fastt", "thorough"), ("quic", "thorough"), ("slow", "thorough")]:
-    bld("c04", f"possible_{lit}", ["C04"], tier, f"candidate {lit!r} with a symbolic ASCII case per letter, symbolic ignore_case, against name 'fast' + alias 'quick'", PV_F)
+for lit, tier in [("fast", "quick"), ("quick", "quick"), ("fas", "quick"), ("fastt", "thorough"), ("quic", "thorough"), ("slow", "thorough")]:
+    bld("c04", f"possible_{lit}", ["C04"], tier, f"candidate {lit!r} with a symbolic ASCII case per letter, symbolic ignore_case, against name 'fast' + alias 'quick'", PV_F, slots=[(1, [0, 1])] + mask_slots(lit))
 bld("c04", "twin_c04_possible_must_fail", ["C04"], "quick", "vacuity twin", PV_F, expect="fail")
